@@ -145,6 +145,110 @@ c.native = False
 con.cases.append(c)
 
 
+# ---- arrays of registers: element k sits at (global offset of the array) + k * step, wherever the array is nested -----------
+class _ElemType:
+    """array_type stand-in: array_type[offset](parent, name) creates the element at `offset` relative to `parent`"""
+
+
+class _Elem:
+    """element created by the array"""
+
+
+_ElemType.__getitem__ = lambda self, off: None
+_Elem.__call__ = lambda self, *a, **k: None
+
+
+def _elemtype_getitem(it, self, off):
+    return SObj(_Elem, f_off=off)
+
+
+def _elem_call(it, self, parent, name, **kw):
+    # what RegisterObject.__init__ does for the element (contract above): global = parent's global + own offset
+    return SObj(_Elem, f_global=parent.fields["_global_offset_"] + self.fields["f_off"], f_parent=parent)
+
+
+I.register_model(_ElemType.__getitem__, _elemtype_getitem)
+I.register_model(_Elem.__call__, _elem_call)
+I.register_inline(REG.RegisterObject.__dict__["__init__"])
+
+
+class _GArg:
+    """GenericArg stand-in"""
+
+
+def array_spec(count, step):
+    def spec(sx, self, parent, name, **kw):
+        env = sx.it.case_env
+        pg, own = env["parent_global"], env["own"]
+        real = sx.real_args[0]
+
+        def holds(res):
+            els = real.fields.get("_elements")
+            if res is not None or not isinstance(els, list) or len(els) != count:
+                return False
+            ok = sx.it.ctx.entails(sym.to_z3(real.fields["_global_offset_"]) == pg + own)
+            for k, e in enumerate(els):
+                ok = ok and e.fields["f_parent"] is real and sx.it.ctx.entails(sym.to_z3(e.fields["f_global"]) == pg + own + k * step)
+            return ok
+
+        return C.Pred(holds, "element k at parent's global offset + array offset + k * step")
+
+    return spec
+
+
+def _arr_cls_attr(it, cls, name):
+    if name == "_parent_offset_":
+        return cls.params["own"]
+    if name == "_generic_arg_":
+        return cls.params["garg"]
+    return I._MISSING
+
+
+I.CLS_ATTR_MODELS[REG.Array] = _arr_cls_attr
+con = contract("cohdl.std.reg.reg:Array.__init__", PROPS)
+for label, pgv, ownv in (("top-level", 0, 0x10), ("in-file-at-0x100", 0x100, 0x10), ("in-file-at-0x40", 0x40, 0), ("symbolic-parent", None, 0x20)):
+    for count, step in ((1, 4), (3, 4), (2, 8)):
+        def mk_self(env, ownv=ownv, count=count, step=step):
+            garg = SObj(_GArg, offset=ownv, end=ownv + count * step, array_step=step, array_type=SObj(_ElemType))
+            return SObj(I.SCls(REG.Array, own=ownv, garg=garg), _register_tools_=_Tools)
+
+        def req(env, pgv=pgv, ownv=ownv):
+            c = [sym.eq(env["own"], ownv), sym.eq(sym.pymod(env["parent_global"], 4), 0)]
+            if pgv is not None:
+                c.append(sym.eq(env["parent_global"], pgv))
+            return sym.And(*c)
+
+        ASELF = Built([], mk_self, lambda a: "None", lambda a: None)
+        APARENT = Built([], (lambda pgv: lambda env: SObj(REG.RegFile, _global_offset_=(pgv if pgv is not None else env["parent_global"]), _parent_offset_=7))(pgv), lambda a: "None", lambda a: None)
+        c = Case(f"{label},{count}-elements-step-{step}", [ASELF, APARENT, NAME], array_spec(count, step), requires=req)
+        c.extra_shapes = [PyInt("parent_global", 0, None, 0, 64), PyInt("own", 0, None, 0, 64)]
+        c.native = False
+        c.custom_replay = "contracts.c20_regs.replay_array_in_regfile"
+        con.cases.append(c)
+
+_ARRAY_DESIGN = '''
+from __future__ import annotations
+from cohdl.std.reg import reg32
+
+class Inner(reg32.RegFile, word_count=16):
+    w: reg32.MemWord[0x00]
+    arr: reg32.Array[reg32.MemWord, 0x10:0x20:4]
+
+class Root(reg32.AddrMap):
+    f: Inner[0x100]
+
+r = Root()
+print("ARRAY", hex(r.f.arr._global_offset_), "ELEMENTS", [hex(e._global_offset_) for e in r.f.arr])
+'''
+
+
+def replay_array_in_regfile(payload):
+    from contracts.c06_extra import _run_design
+
+    rc, out = _run_design(_ARRAY_DESIGN)
+    return {"reproduced": rc == 0 and "ARRAY 0x110" in out and "'0x110'" not in out.split("ELEMENTS")[1], "detail": out[-300:]}
+
+
 def file_offset_spec(sx, self, parent, name, **kw):
     env = sx.it.case_env
     real = sx.real_args[0]
